@@ -149,16 +149,16 @@ variable {B D : Type}
 /-- declarative "nearest cached ancestor": position `k` of the chain holds a cache-loadable
 converter whose file `u ++ e` exists, and no earlier cache-loadable converter's file does -/
 def Nearest (openf : Str → Option B) (u : Str) (ch : List Conv) (k : Nat) (c : Conv) (e : Str) (b : B) : Prop :=
-  ch[k]? = some c ∧ usableExt c = some e ∧ openf (u ++ e) = some b ∧
-  ∀ j, j < k → ∀ c' e', ch[j]? = some c' → usableExt c' = some e' → openf (u ++ e') = none
+  ch[k]? = some c ∧ usableFor u c = some e ∧ openf (u ++ e) = some b ∧
+  ∀ j, j < k → ∀ c' e', ch[j]? = some c' → usableFor u c' = some e' → openf (u ++ e') = none
 
 /-- nothing usable is cached for `u` along the chain -/
 def NoneCached (openf : Str → Option B) (u : Str) (ch : List Conv) : Prop :=
-  ∀ c ∈ ch, ∀ e, usableExt c = some e → openf (u ++ e) = none
+  ∀ c ∈ ch, ∀ e, usableFor u c = some e → openf (u ++ e) = none
 
 /-- the names `__load_cache` asks the handler for when the first hit is at position `k` -/
 def probedNames (u : Str) (ch : List Conv) (k : Nat) : List Str :=
-  ((ch.take (k + 1)).filterMap usableExt).map (u ++ ·)
+  ((ch.take (k + 1)).filterMap (usableFor u)).map (u ++ ·)
 
 theorem Nearest.unique {openf : Str → Option B} {u ch k c e b k' c' e' b'}
     (h : Nearest openf u ch k c e b) (h' : Nearest openf u ch k' c' e' b') :
@@ -223,7 +223,7 @@ theorem probe_hit {openf : Str → Option B} {u : Str} :
 theorem probe_miss {openf : Str → Option B} {u : Str} :
     ∀ (ch : List Conv) (o : Nat) {names},
       probe openf u ch o = (names, none) →
-      NoneCached openf u ch ∧ names = (ch.filterMap usableExt).map (u ++ ·) := by
+      NoneCached openf u ch ∧ names = (ch.filterMap (usableFor u)).map (u ++ ·) := by
   intro ch
   induction ch with
   | nil => intro o names h; simp [probe] at h; subst h; simp [NoneCached]
@@ -293,7 +293,7 @@ theorem loadCache_hit (ops : Ops B D) {openf : Str → Option B} {u ch k c e b}
 theorem loadCache_miss (ops : Ops B D) {openf : Str → Option B} {u ch}
     (h : NoneCached openf u ch) :
     loadCache ops openf u ch =
-      (((ch.filterMap usableExt).map (u ++ ·)).map .opened, .error .keyError) := by
+      (((ch.filterMap (usableFor u)).map (u ++ ·)).map .opened, .error .keyError) := by
   unfold loadCache
   cases hp : probe openf u ch 0 with
   | mk names r =>
@@ -307,7 +307,7 @@ theorem loadCache_miss (ops : Ops B D) {openf : Str → Option B} {u ch}
 /-- the lookup only depends on the files named `u ++ e` for extensions `e` of the chain -/
 theorem probe_congr {openf openf' : Str → Option B} {u : Str} :
     ∀ (ch : List Conv) (o : Nat),
-      (∀ c ∈ ch, ∀ e, usableExt c = some e → openf (u ++ e) = openf' (u ++ e)) →
+      (∀ c ∈ ch, ∀ e, usableFor u c = some e → openf (u ++ e) = openf' (u ++ e)) →
       probe openf u ch o = probe openf' u ch o := by
   intro ch
   induction ch with
@@ -395,6 +395,27 @@ theorem name_injective {exts : List Str} (hs : SuffixFree exts) {u u' e e' : Str
   subst hee
   exact ⟨List.append_cancel_right h, rfl⟩
 
+/-- what is probed for a diagram is cache-loadable, and its name is a plain file name -/
+theorem usableFor_some {u : Str} {c : Conv} {e : Str} (h : usableFor u c = some e) :
+    usableExt c = some e ∧ plainName (u ++ e) = true := by
+  unfold usableFor at h
+  split at h
+  · cases h
+  · rename_i e' he'
+    split at h
+    · rename_i hp; cases h; exact ⟨he', hp⟩
+    · cases h
+
+/-- a plain name is resolved to itself by every handler (all clauses of `Capella.Path.target`) -/
+theorem target_of_plain (h : Capella.Path.Handler) (sd n : Str) (hp : plainName n = true) :
+    Capella.Path.target h sd n = Capella.Path.normalize [] [sd] ++ [n] := by
+  have : Capella.Path.normalize [] [n] = [n] := by simpa [plainName] using hp
+  cases h <;> simp [Capella.Path.target, this]
+
+theorem usableFor_of_plain {u : Str} {c : Conv} {e : Str} (h : usableExt c = some e)
+    (hp : plainName (u ++ e) = true) : usableFor u c = some e := by
+  simp [usableFor, h, hp]
+
 theorem usableExt_mem_exts {T : Table} {c : Conv} {e : Str} (hc : c ∈ T.convs)
     (he : usableExt c = some e) : e ∈ T.exts := by
   unfold Table.exts
@@ -480,7 +501,7 @@ theorem render_miss_noallow (T : Table) (ops : Ops B D) {openf : Str → Option 
     (hf : T.entry f = some i) (hc : T.chain i = some ch) (hcache : cfg.cache = true)
     (hallow : cfg.allowRender = false) (hn : NoneCached openf u ch) :
     render T ops openf fresh cfg u (some f) pretty =
-      (((ch.filterMap usableExt).map (u ++ ·)).map .opened, .error .notInCache) := by
+      (((ch.filterMap (usableFor u)).map (u ++ ·)).map .opened, .error .notInCache) := by
   simp [render, hf, hc, hcache, hallow, loadCache_miss ops hn]
 
 theorem render_miss_allow (T : Table) (ops : Ops B D) {openf : Str → Option B} (fresh : Except Err D)
@@ -488,7 +509,7 @@ theorem render_miss_allow (T : Table) (ops : Ops B D) {openf : Str → Option B}
     (hf : T.entry f = some i) (hc : T.chain i = some ch) (hcache : cfg.cache = true)
     (hallow : cfg.allowRender = true) (hn : NoneCached openf u ch) :
     render T ops openf fresh cfg u (some f) pretty =
-      (((ch.filterMap usableExt).map (u ++ ·)).map .opened ++ (renderFresh ops fresh pretty ch).1,
+      (((ch.filterMap (usableFor u)).map (u ++ ·)).map .opened ++ (renderFresh ops fresh pretty ch).1,
        (renderFresh ops fresh pretty ch).2) := by
   simp [render, hf, hc, hcache, hallow, loadCache_miss ops hn]
 
@@ -532,7 +553,7 @@ theorem openedNames_renderFresh (ops : Ops B D) (fresh : Except Err D) (p : Bool
     exact this
 
 theorem probedNames_sub (u : Str) (ch : List Conv) (k : Nat) :
-    ∀ n ∈ probedNames u ch k, ∃ c ∈ ch, ∃ e, usableExt c = some e ∧ n = u ++ e := by
+    ∀ n ∈ probedNames u ch k, ∃ c ∈ ch, ∃ e, usableFor u c = some e ∧ n = u ++ e := by
   intro n hn
   unfold probedNames at hn
   obtain ⟨e, he, rfl⟩ := List.mem_map.mp hn
@@ -544,7 +565,7 @@ of a converter on the chain -/
 theorem render_opened_sub (T : Table) (ops : Ops B D) (openf : Str → Option B) (fresh : Except Err D)
     (cfg : Cfg) (u : Str) (fmt : Option Str) (pretty : Bool) :
     ∀ n ∈ openedNames (render T ops openf fresh cfg u fmt pretty).1,
-      ∃ c ∈ T.convs, ∃ e, usableExt c = some e ∧ n = u ++ e := by
+      ∃ c ∈ T.convs, ∃ e, usableFor u c = some e ∧ n = u ++ e := by
   intro n hn
   cases fmt with
   | none =>
@@ -602,7 +623,7 @@ theorem render_congr (T : Table) (ops : Ops B D) {openf openf' : Str → Option 
       | some ch =>
         have hsub := (Table.chain_sound hc).mem_convs
         have hp : probe openf u ch 0 = probe openf' u ch 0 :=
-          probe_congr ch 0 (fun c hc' e he => h e (usableExt_mem_exts (hsub c hc') he))
+          probe_congr ch 0 (fun c hc' e he => h e (usableExt_mem_exts (hsub c hc') (usableFor_some he).1))
         simp only [render, hf, hc, loadCache, hp]
 
 end
